@@ -12,8 +12,9 @@ LEVEL = "model_checking"
 DESIGN_REF = "DESIGN.md 5 C01"
 RULE = (
     "case = (sub-assembly of <=k lattice cells, corner numbering per block from the 24 rotations, chop placement: every "
-    "(block, direction) in {none, count 2, count 3} (+ a computed-count chop)), executed by assemble+write on the real "
-    "library; expected verdict from the edge-family union-find model. non-trivial = the blocks share at least one edge "
+    "(block, direction) in {none, count 2, count 3} (+ a computed-count chop, + a two-section chop with unequal counts)), executed by assemble+write on the real "
+    "library, and by a second write() of the same mesh when the first one was refused for a conflict; expected verdict from "
+    "the edge-family union-find model. non-trivial = the blocks share at least one edge "
     "and at least one direction is chopped"
 )
 ASSUMPTIONS = [
@@ -107,13 +108,17 @@ def cases(tier, seed):
     for c in out[:: (5 if q else 3)]:
         if 2 in c["placement"]:
             extra.append(dict(c, computed=c["placement"].index(2)))
+    # multi-section variant: one direction chopped "count 3" is chopped in two sections of 1 + 2 cells instead
+    for c in out[2 :: (5 if q else 3)]:
+        if "computed" not in c and 2 in c["placement"]:
+            extra.append(dict(c, multi=len(c["placement"]) - 1 - c["placement"][::-1].index(2)))
     out += extra
     out.sort(key=lambda c: (len(c["cells"]), sum(1 for x in c["placement"] if x)))
     return out
 
 
 def bounds(tier):
-    return {"max_blocks": 3 if tier == "quick" else 4, "values_per_direction": "none|count 2|count 3 (+computed count 4)"}
+    return {"max_blocks": 3 if tier == "quick" else 4, "values_per_direction": "none|count 2|count 3 (+computed count 4, +two sections of 1+2 cells)"}
 
 
 def script_of(case):
@@ -124,6 +129,9 @@ def script_of(case):
             kw = dict(VALUES[val])
             if case.get("computed") == idx:
                 kw = dict(COMPUTED)
+            if case.get("multi") == idx:
+                chops.append([idx // 3, idx % 3, {"length_ratio": 0.4, "count": 1}])
+                kw = {"length_ratio": 0.6, "count": 2}
             chops.append([idx // 3, idx % 3, kw])
     script = {"cells": cells, "numbering": case["numbering"], "chops": chops, "order": list(range(len(cells)))}
     if case.get("complete"):
@@ -144,6 +152,8 @@ def run_case(case):
     coords["complete"] = bool(case.get("complete"))
     if "computed" in case:
         coords["computed"] = case["computed"]
+    if "multi" in case:
+        coords["multi"] = case["multi"]
     coords["verdict"] = verdict
     violations = []
     if kind.startswith("livelock"):
@@ -200,5 +210,20 @@ def run_case(case):
             violations.append({"clause": "ii-conflict-wrong-error", "coords": coords, "detail": f"conflicting chops, writing raised {payload}"})
         if "partial" in kind:
             violations.append({"clause": "partial-file", "coords": coords, "detail": "output modified although writing failed"})
+        if "conflict" in verdict:
+            # the user's obvious next step is to call write() again on the same mesh: "whenever writing succeeds" covers
+            # that call too
+            kind2, payload2 = gradlab.write_and_observe(mesh)
+            if kind2.startswith("ok"):
+                by_edge = gradlab.file_edge_counts(gradlab.parse_ok(payload2))
+                worst = [lst for lst in by_edge.values() if len({c for _, _, c in lst}) > 1]
+                violations.append(
+                    {
+                        "clause": "ii-conflict-written-on-retry",
+                        "coords": coords,
+                        "detail": f"the first write() raised {payload}, a second write() of the same mesh produced a dictionary; edges with differing counts: {worst[:1]}",
+                    }
+                )
+            outcome += "|retry:" + (payload2 if not kind2.startswith("ok") else "written")
     nontrivial = shares_edge([tuple(c) for c in case["cells"]]) and any(case["placement"])
     return {"violations": violations, "outcome": f"{verdict}|{outcome}", "nontrivial": nontrivial, "execs": 1}
